@@ -1,4 +1,5 @@
 """C12 - PDS sub-elements are packed into carrier elements and recovered without loss."""
+import copy
 import random
 
 from .. import gen, msgwork
@@ -95,6 +96,23 @@ def judge(ctx, case):
         msg[k] = items[k]
     if order != sorted(order):
         ctx.count('sets supplied in non-ascending insertion order')
+    # configuration objects come and go, and get edited, in real programs: one case in four works on a throwaway copy
+    # (its id may be that of an earlier, dead one), one in eight on a copy that was used once and then had one of its
+    # carriers moved to another element - whatever the library remembered about the object is stale then
+    mode = (len(order) * 5 + sum(len(v) for v in items.values())) % 8
+    if mode in (1, 2, 5):
+        cfg = copy.deepcopy(cfg)
+        ctx.count('sets packed under a throwaway copy of the configuration')
+    if mode == 2 and ref.carriers_of(cfg):
+        spare = [b for b in gen.data_bits(cfg) if cfg[str(b)]['field_type'] == 'LLLVAR' and not cfg[str(b)].get('field_processor')
+                 and gen.is_text(cfg[str(b)]) and 'DE%d' % b not in msg]
+        if spare:
+            ctx.call(iso.dumps, {'MTI': '1240', 'PDS0001': 'x'}, encoding=enc, iso_config=cfg, budget=600000)
+            old = ref.carriers_of(cfg)[-1 if mode_pick(items) else 0]
+            new = spare[len(items) % len(spare)]
+            del cfg[str(old)]['field_processor']
+            cfg[str(new)]['field_processor'] = 'PDS'
+            ctx.count('sets packed after a carrier was moved in an already used configuration object')
     car = ref.carriers_of(cfg)
     want = ref.pack_pds([(int(k[3:]), v) for k, v in items.items()])
     if len(want) > len(car):
@@ -153,6 +171,10 @@ def judge(ctx, case):
                     'carrier_lengths': [len(w) for w in want], 'carriers': car[:len(want)]})
 
 
+def mode_pick(items):
+    return sum(len(k) + len(v) for k, v in items.items()) % 2
+
+
 def canaries(ctx):
     ctx.canary('threshold is > 999 not >= 999', [len(x) for x in ref.pack_pds([(1, 'a' * 492), (2, 'b' * 493)])] == [999])
     ctx.canary('1000 characters split', [len(x) for x in ref.pack_pds([(1, 'a' * 492), (2, 'b' * 494)])] == [499, 501])
@@ -169,6 +191,8 @@ def require(m):
         reasons.append('no carrier was filled to exactly 999')
     if not m['counters'].get('sets supplied in non-ascending insertion order'):
         reasons.append('no PDS set was supplied out of order')
+    if not m['counters'].get('sets packed after a carrier was moved in an already used configuration object') and not m['violations']:
+        reasons.append('no set packed after a carrier was moved in a used configuration object')
     if not m['counters'].get('sets containing tag 0000'):
         reasons.append('tag 0000 never used')
     if not m['counters'].get('sets with a zero-length value'):
